@@ -105,7 +105,8 @@ def run_mc(res: Result, name: str, ops: list[str], maxcalls: int, limits: list[i
                   constants={"MaxCalls": maxcalls, "NetMode": f'"{netmode}"', "Limits": tlc.tla_set(limits),
                              "MaxM": tlc.tla_set(maxm), "Ops": tlc.tla_set(ops), "FailAts": tlc.tla_set(list(failats)),
                              "EmitFrom": emit_from if emit_from is not None else 99})
-    r = tlc.model_check("MC_SD", cfg, wd, timeout=timeout)
+    env = {"CATALOGUE": os.path.join(tlc.SPEC_DIR, "catalogue.ndjson")} if netmode == "file" else None
+    r = tlc.model_check("MC_SD", cfg, wd, timeout=timeout, env=env)
     res.cov["states"] += r["distinct"]
     res.cov["transitions"] += r["generated"]
     res.cov["mc_runs"].append({"name": name, "ops": ops, "max_calls": maxcalls, "limits": limits, "maxm": maxm,
